@@ -121,6 +121,10 @@ func vBytes(name string, n int) []byte {
 // (nothing materialised), natively it is a real allocation.
 func vHugeBytes(n int) []byte { return make([]byte, n) }
 
+// vKernelDropHandles: process death for the OS file systems. Natively the
+// replay harness closes what it opened itself; nothing to do here.
+func vKernelDropHandles() {}
+
 func vAssume(b bool) {
 	if !b {
 		panic(vAssumeFailed{})
